@@ -483,6 +483,7 @@ func runC15(r *rng, tier string) {
 		}
 	}
 	twoOps()
+	runLabels(r, tier)
 	marker()
 	runRecords(r, tier)
 }
@@ -504,6 +505,9 @@ func replay(in string) {
 	case "dec":
 		bs, _ := hex.DecodeString(c["bytes"].(string))
 		runCase(func() { doBytes("dec.replay", bs, c["host"].(string), true) })
+	case "label":
+		b, _ := hex.DecodeString(c["hex"].(string))
+		runCase(func() { labelCase(string(b)) })
 	case "decn":
 		bs, _ := hex.DecodeString(c["bytes"].(string))
 		runCase(func() { doReuse("decn.replay", bs, c["host"].(string), int(c["calls"].(float64))) })
